@@ -37,6 +37,7 @@ func c04Leaves(full bool) []*qt.Node {
 			qt.Range("n", qt.Int(1), qt.Float("2.5"), true), qt.Range("s", qt.Word("aa"), qt.Word("zz"), true), qt.Range("s", qt.Phrase("x,y"), qt.Phrase("z z"), false),
 			qt.Range("s", qt.Open(), qt.Word("mm"), true), qt.Range("n", qt.Open(), qt.Open(), true),
 			qt.List("n", qt.Int(1), qt.Float("2.5"), qt.Phrase("z z")), qt.List("s", qt.Phrase("a,b"), qt.Phrase("it's")),
+			qt.F("f", qt.Wild(`b\*c*`)), qt.F("f", qt.Wild(`b\?c?`)), qt.F("f", qt.Wild(`\**`)), qt.F("f", qt.Wild(`a\ b*`)), qt.T(qt.Wild(`b\*c*`)),
 			qt.List("s", qt.Word("p"), qt.Word("q"), qt.Int(3), qt.Phrase("r s")), qt.List("n", qt.Int(1), qt.Int(2), qt.Int(3), qt.Float("4.5"), qt.Int(5)),
 			qt.FV(qt.Int(5), qt.Wild("c*")), qt.FV(qt.Float("1.5"), qt.Wild("c?d")), qt.FV(qt.Int(-7), qt.Word("x")), qt.FV(qt.Int(5), qt.Regexp("/c*/")),
 			qt.F("f", qt.Regexp(`/C:\\/`)), qt.List("s", qt.Word("x"), qt.Word("x"), qt.Word("y")), qt.Range("n", qt.Int(5), qt.Int(5), true),
@@ -153,7 +154,7 @@ func sameKindValue(r *rand.Rand, v qt.Value, where string) (qt.Value, string) {
 	case qt.VFloat:
 		return qt.Float([]string{"0.5", "-2.75", "3.14159", "0.001", "1234.5678", "1e-7", "2.5e21"}[r.Intn(7)]), "float"
 	case qt.VWild:
-		return qt.Wild([]string{"*", "?", "a*", "*b", "x?y", "ab*cd?", "q??"}[r.Intn(7)]), "pattern"
+		return qt.Wild([]string{"*", "?", "a*", "*b", "x?y", "ab*cd?", "q??", `b\*c*`, `x\?y?`, "?*", "a*?"}[r.Intn(11)]), "pattern"
 	case qt.VRegexp:
 		return qt.Regexp([]string{"/b/", "//", "/x.*y/", "/[a-z]+/", "/a b/"}[r.Intn(5)]), "regexp"
 	}
